@@ -42,9 +42,18 @@ Fixpoint volt_loop_go (amp off : Q) (res : Z) (vs : list Q) (flag : bool) (acc :
 Definition volt_loop (amp off : Q) (res : Z) (vs : list Q) : outcome (list Z) :=
   let '(flag, cs) := volt_loop_go amp off res vs false [] in if flag then OErr else ORet cs.
 
-(* voltage_to_uint16: resolution check, then the variant selected by `numba is None` (numpy here) *)
+(* The result array is uint16.  numpy stores an integral float c as c mod 2^16 (what the x86-64 conversion does for
+   |c| < 2^31; the C cast is undefined outside the target range and larger values were observed to give 0).  volt_numpy / volt_loop above are the mathematical
+   codes; the *16 versions are what the arrays returned by the internal variants hold. *)
+Definition store16 (c : Z) : Z := c mod 2 ^ 16.
+Definition map_out {A B} (f : A -> B) (o : outcome A) : outcome B := match o with ORet x => ORet (f x) | OErr => OErr end.
+Definition volt_numpy16 (amp off : Q) (res : Z) (vs : list Q) : outcome (list Z) := map_out (map store16) (volt_numpy amp off res vs).
+Definition volt_loop16 (amp off : Q) (res : Z) (vs : list Q) : outcome (list Z) := map_out (map store16) (volt_loop amp off res vs).
+
+(* voltage_to_uint16: resolution check (1 .. 16 since the round-3 repair; before it only `res < 1` was rejected and
+   codes of 17+ bit resolutions were silently wrapped), then the variant selected by `numba is None` (numpy here) *)
 Definition volt_public (amp off : Q) (res : Z) (vs : list Q) : outcome (list Z) :=
-  if res <? 1 then OErr else volt_numpy amp off res vs.
+  if (res <? 1) || (16 <? res) then OErr else volt_numpy16 amp off res vs.
 
 (* ------------------------------------------------------------------------------------------------------------ *)
 (* is_monotonic *)
